@@ -182,24 +182,25 @@ vp_fail_hard(int call, int e) {
   errno = e;
 }
 
+/* Descriptor numbers are CONCRETE: open() of name i returns
+   VP_FD0 + vp_fd_base + i; the harness moves vp_fd_base between API calls when
+   the same name can be open more than once (lock file).  A failed open does
+   not consume a number, POSIX-like reuse of closed numbers is not modelled
+   (a number is never reused, so use-after-close is always seen). */
+static int vp_fd_base;
+
 static int
 vp_fd_ok(int fd) {
-  int i, ok = 0;
-  for (i = 0; i < VP_MAXFD; i++) {
-    if (fd == VP_FD0 + i && vp_fds[i].isopen)
-      ok = 1;
-  }
-  return ok;
+  if (fd < VP_FD0 || fd >= VP_FD0 + VP_MAXFD)
+    return 0;
+  return vp_fds[fd - VP_FD0].isopen;
 }
 
 static int
 vp_fd_name(int fd) {
-  int i, r = 0;
-  for (i = 0; i < VP_MAXFD; i++) {
-    if (fd == VP_FD0 + i)
-      r = vp_fds[i].name;
-  }
-  return r;
+  if (fd < VP_FD0 || fd >= VP_FD0 + VP_MAXFD)
+    return 0;
+  return vp_fds[fd - VP_FD0].name;
 }
 
 /* result kinds of a fallible call */
@@ -238,8 +239,9 @@ vp_open(const char *name, int flags, ...) {
 
   vp_clock++;
   id = vp_name_id(name);
-  slot = vp_opens;
-  VP_ASSERT(slot < VP_MAXFD, "vp-model: descriptor table full");
+  slot = vp_fd_base + id;
+  VP_ASSERT(slot >= 0 && slot < VP_MAXFD, "vp-model: descriptor table full");
+  VP_ASSERT(!vp_fds[slot].isopen && vp_fds[slot].closes == 0, "vp-model: descriptor number already used");
   vp_opens++;
 
   /* EINVAL: the kernel rejects O_CLOEXEC (the real code retries without) */
@@ -259,20 +261,13 @@ vp_open(const char *name, int flags, ...) {
     return -1;
   }
 
-  {
-    int i;
-    for (i = 0; i < VP_MAXFD; i++) {
-      if (i == slot) {
-        vp_fds[i].isopen = 1;
-        vp_fds[i].closes = 0;
-        vp_fds[i].name = id;
-        vp_fds[i].flags = flags;
-        vp_fds[i].mode = mode;
-        vp_fds[i].cloexec = (flags & O_CLOEXEC) != 0;
-        vp_fds[i].synced = 0;
-      }
-    }
-  }
+  vp_fds[slot].isopen = 1;
+  vp_fds[slot].closes = 0;
+  vp_fds[slot].name = id;
+  vp_fds[slot].flags = flags;
+  vp_fds[slot].mode = mode;
+  vp_fds[slot].cloexec = (flags & O_CLOEXEC) != 0;
+  vp_fds[slot].synced = 0;
   vp_nopen++;
   if (vp_name_isdir[id]) {
     vp_dir_opens++;
@@ -288,24 +283,17 @@ vp_close(int fd) {
   int i, k, known = 0, isdir = 0;
 
   vp_clock++;
-  for (i = 0; i < VP_MAXFD; i++) {
-    if (fd == VP_FD0 + i) {
-      known = 1;
-      isdir = vp_name_isdir[vp_fds[i].name];
-      VP_ASSERT(vp_fds[i].isopen, "close(2) only of an open descriptor (no double close)");
-      if (vp_fds[i].isopen)
-        vp_nopen--;
-      vp_fds[i].isopen = 0;
-      vp_fds[i].closes++;
-      /* POSIX: all record locks of the process on this file go away */
-      {
-        int f;
-        for (f = 0; f < VP_NFILES; f++) {
-          if (f == vp_name_file[vp_fds[i].name])
-            vp_oslock[f] = 0;
-        }
-      }
-    }
+  if (fd >= VP_FD0 && fd < VP_FD0 + VP_MAXFD) {
+    i = fd - VP_FD0;
+    known = vp_fds[i].isopen || vp_fds[i].closes > 0;
+    isdir = vp_name_isdir[vp_fds[i].name];
+    VP_ASSERT(vp_fds[i].isopen, "close(2) only of an open descriptor (no double close)");
+    if (vp_fds[i].isopen)
+      vp_nopen--;
+    vp_fds[i].isopen = 0;
+    vp_fds[i].closes++;
+    /* POSIX: all record locks of the process on this file go away */
+    vp_oslock[vp_name_file[vp_fds[i].name]] = 0;
   }
   VP_ASSERT(known, "close(2) of a descriptor that open(2) returned");
   if (fd == vp_dir_fd)
@@ -425,7 +413,7 @@ vp_write(int fd, const void *buf, size_t count) {
 /* ---- fsync / fdatasync --------------------------------------------------- */
 static int
 vp_sync_common(int fd, int is_fdatasync) {
-  int k, i, isdir;
+  int k, isdir;
 
   vp_clock++;
   VP_ASSERT(vp_fd_ok(fd), "fsync/fdatasync on an open descriptor");
@@ -458,10 +446,8 @@ vp_sync_common(int fd, int is_fdatasync) {
     vp_fail_hard(3, e);
     return -1;
   }
-  for (i = 0; i < VP_MAXFD; i++) {
-    if (fd == VP_FD0 + i)
-      vp_fds[i].synced++;
-  }
+  if (fd >= VP_FD0 && fd < VP_FD0 + VP_MAXFD)
+    vp_fds[fd - VP_FD0].synced++;
   if (isdir)
     vp_dir_sync_tick = vp_clock;
   else if (fd == vp_data_fd)
@@ -477,7 +463,7 @@ static int vp_fdatasync(int fd) { return vp_sync_common(fd, 1); }
 static int
 vp_fcntl(int fd, int cmd, ...) {
   va_list ap;
-  int k, i;
+  int k;
 
   vp_clock++;
   VP_ASSERT(vp_fd_ok(fd), "fcntl on an open descriptor");
@@ -496,10 +482,8 @@ vp_fcntl(int fd, int cmd, ...) {
     va_start(ap, cmd);
     arg = va_arg(ap, int);
     va_end(ap);
-    for (i = 0; i < VP_MAXFD; i++) {
-      if (fd == VP_FD0 + i)
-        vp_fds[i].cloexec = (arg & FD_CLOEXEC) != 0;
-    }
+    if (fd >= VP_FD0 && fd < VP_FD0 + VP_MAXFD)
+      vp_fds[fd - VP_FD0].cloexec = (arg & FD_CLOEXEC) != 0;
     vp_scramble_errno();
     return 0;
   }
@@ -526,10 +510,7 @@ vp_fcntl(int fd, int cmd, ...) {
       vp_fail_hard(6, vp_pick_errno());
       return -1;
     }
-    for (i = 0; i < VP_NFILES; i++) {
-      if (i == file)
-        vp_oslock[i] = (type == F_WRLCK);
-    }
+    vp_oslock[file] = (type == F_WRLCK);
     vp_scramble_errno();
     return 0;
   }
